@@ -396,7 +396,7 @@ def _all_paths_done_ignores_empty_slots(ctx: Ctx):
         if isinstance(n, ast.Call) and isinstance(n.func, ast.Attribute) and n.func.attr in ("all", "any") and n.args and u(n.args[0]) == "1" \
                 and under_flag(guards_of(pm, n), "self.finish_all_paths", True):
             sites.append(n)
-    # 'run all paths to completion' by value: the statement that holds the batch-wide reduction is evaluated (sa/teval.py) on five beams
+    # 'run all paths to completion' by value: the statement that holds the batch-wide reduction is evaluated (sa/teval.py) on six beams
     # of three slots - an active slot among finished / empty ones, only finished and empty ones, only empty ones, only finished
     # ones, one active slot among finished ones: an element is done iff EVERY slot has finished or is empty (score -inf)
     import math
@@ -404,12 +404,13 @@ def _all_paths_done_ignores_empty_slots(ctx: Ctx):
     from sa.inline import Inliner as _InlAP
     from sa.inteval import NotEvaluable as _NEap
     from sa.teval import frac_array, teval as _teval
-    E = np.array([[True, False, False], [True, False, True], [False, False, False], [True, True, True], [False, True, True]])
-    L = np.empty((5, 3), dtype=object)
-    L[...] = frac_array([[0, -1, 0], [0, 0, -2], [0, 0, 0], [-1, -2, -3], [-1, -2, -3]])
+    # (sixth beam: the only unfinished slot carries a very low but FINITE score - a path of many improbable steps is still a path)
+    E = np.array([[True, False, False], [True, False, True], [False, False, False], [True, True, True], [False, True, True], [False, True, True]])
+    L = np.empty((6, 3), dtype=object)
+    L[...] = frac_array([[0, -1, 0], [0, 0, -2], [0, 0, 0], [-1, -2, -3], [-1, -2, -3], [-10 ** 6, -2, -3]])
     for i_, j_ in ((0, 2), (1, 1), (2, 0), (2, 1), (2, 2)):
         L[i_, j_] = -math.inf
-    want_done = [False, True, True, True, False]
+    want_done = [False, True, True, True, False, False]
     verdicts, n_und = [], 0
     for n in sites:
         st = n
@@ -426,6 +427,13 @@ def _all_paths_done_ignores_empty_slots(ctx: Ctx):
         def leaf(x):
             if isinstance(x, ast.Name):
                 return L if x.id == score else E
+            if isinstance(x, ast.Attribute) and isinstance(x.value, ast.Name) and x.value.id == "config":
+                from sa.constfold import fold_constant
+                v_ = fold_constant(pkg.module("config").tree, x.attr)  # (a library constant, from its definition)
+                if isinstance(v_, float) and v_ == v_ and abs(v_) != math.inf:
+                    from fractions import Fraction as _FrC
+                    return _FrC(v_)
+                return v_
             return None
         try:
             got = _teval(ex, {}, leaf)
@@ -438,8 +446,8 @@ def _all_paths_done_ignores_empty_slots(ctx: Ctx):
     badv = [(st, got) for st, got in verdicts if got != want_done]
     col.floor("all_paths_reductions", len(sites), 1)
     col.ob("G13", "S5", f"{rel}::BeamSearch.forward::all-paths-mode-waits-for-every-slot", not badv and (bool(verdicts) or n_und > 0),
-           (f"under finish_all_paths `{u(badv[0][0])[:80]}` gives done = {badv[0][1]} for five reference beams (an active slot among finished / empty "
-            f"ones; finished and empty ones; only empty ones; only finished ones; one active slot among finished ones); an element is done iff "
+           (f"under finish_all_paths `{u(badv[0][0])[:80]}` gives done = {badv[0][1]} for six reference beams (an active slot among finished / empty "
+            f"ones; finished and empty ones; only empty ones; only finished ones; one active slot among finished ones; the same with a very low finite score); an element is done iff "
             f"EVERY slot has finished or is empty: {want_done} - otherwise the search freezes an element at the first eos anywhere in its beam and "
             f"returns unfinished prefixes, or never stops because empty slots never end in eos") if badv else "", rel,
            badv[0][0].lineno if badv else f.line)
